@@ -15,6 +15,14 @@ Rejected calls: update_model with a vector shorter / longer than the fitted set 
        neither mode are calls of the specification (UpdateWrong, BadMode: an error, nothing changes, the history goes
        on); the mode argument is a pair (mode, letters written in upper case).  TLC must refute ErrorsChangeNothing
        for UpdateGuard = "while_writing" and HistoryIndependent for ModeStore = "raw".
+Boundaries with a zero / negative edge (legal for a parameter fitted in linear space; codes Zero / Neg(e) of the
+       specification) are in every alphabet; "order" histories: two setting calls of different kinds on the same fitted
+       parameter in either order (boundaries then mode, mode then boundaries ..), then compile.  TLC must refute
+       HistoryIndependent for BoundaryGuard = "positive_in_log" (boundaries dropped while the parameter is in log mode).
+Arguments: every sequence handed to a call (boundary / factor pair, vector) is a list, a tuple or a float64 ndarray whose
+       contents are compared with a private copy afterwards; the array of the last update_model is state of the
+       specification (arg: it still holds what the caller wrote, after every later call too) and UpdateSame hands the
+       same array object to update_model again.  TLC must refute ArgumentKept for UpdateArg = "transformed".
 Binding B: seeded random call sequences (wider argument domains) recorded from the real object and
        validated call by call by Trace_Optimizer.tla; canary.
 """
@@ -26,11 +34,12 @@ from .. import fx_optimizer as fx
 from .. import fx_paramframe
 
 CLAUSES = ('unknown_is_error', 'known_is_accepted', 'views_readable', 'fit_names', 'fit_values',
-           'fit_boundaries', 'fit_priors', 'derived_names', 'values', 'other_parameters_untouched')
-FULL = ('compile_params', 'update_model', 'write_back')     # calls after which the whole set-up is compared
+           'fit_boundaries', 'fit_priors', 'derived_names', 'values', 'other_parameters_untouched', 'argument_untouched')
+FULL = ('compile_params', 'update_model', 'update_same', 'write_back')     # calls after which the whole set-up is compared
+UPDATES = ('update_model', 'update_same')
 OBS_PARAMS = ('offset',)     # the observation's fitting parameters (MC_Optimizer.tla: MCObsParams)
 NEED = ('SetPrior', 'EnableDerived', 'DisableDerived', 'Compile', 'WriteBack', 'Unknown', 'UpdateCall',
-        'UpdateWrongCall', 'BadMode')
+        'UpdateWrongCall', 'BadMode', 'UpdateSame')
 MODES = ('linear', 'log')
 
 
@@ -45,17 +54,37 @@ def history_class(hist, k):
         since.append(h['op'])
         since_kinds.append(call_kind(h))
     tags = sorted(set(since) & {'set_boundary', 'set_factor_boundary', 'set_mode', 'set_prior'}) \
-        if hist[k]['op'] in ('compile_params', 'write_back', 'update_model') and compiled_before else []
+        if hist[k]['op'] in FULL and compiled_before else []
     if hist[k]['op'] in FULL and 'set_mode[mixed-case]' in since_kinds:
         tags = [t for t in tags if t != 'set_mode'] + ['set_mode[mixed-case]']     # a mode spelled with upper-case letters
+    if hist[k]['op'] in FULL and 'set_boundary[non-positive]' in since_kinds:
+        tags = [t for t in tags if t != 'set_boundary'] + ['set_boundary[non-positive]']     # a zero / negative edge
+    if hist[k]['op'] in FULL and boundary_then_mode(hist[:k]):
+        tags.append('boundary-then-mode')
     if k and call_kind(hist[k - 1]) in ('update_model<shorter', 'update_model>longer', 'set_mode[no-mode]'):
         tags.append('after-refused-call')          # the call before this one was refused
+    if hist[k]['op'] in UPDATES:       # the sequence type of the vector (update_same: of the vector handed over before)
+        c = [h.get('c') for h in hist[:k + 1] if h['op'] == 'update_model' and h.get('c')]
+        op += '(%s)' % (c[-1] if c else 'list')
     cls = '%s:%s:%s' % (op, 'recompile' if compiled_before else 'first', '+'.join(tags) or '-')
     pre = [h for h in hist[:k + 1] if h['op'] == 'preset']
     if pre:
         cls += ':fitted=%s:%s' % (fitted_kind(pre[-1]['on']),
                                   'user-prior' if any(h['op'] == 'set_prior' for h in hist[:k + 1]) else 'no-user-prior')
     return cls
+
+
+def boundary_then_mode(before):
+    """Since the last compile a parameter's boundaries were set and its mode afterwards (the order of an input file)."""
+    bounded = set()
+    for h in before:
+        if h['op'] == 'compile_params':
+            bounded = set()
+        elif h['op'] in ('set_boundary', 'set_factor_boundary'):
+            bounded.add(h.get('p'))
+        elif h['op'] == 'set_mode' and h.get('p') in bounded and h.get('m') in MODES:
+            return True
+    return False
 
 
 def call_kind(ev):
@@ -70,6 +99,10 @@ def call_kind(ev):
         if n == nfit:      # co: an entry handed to a log prior is numerically the parameter's current value
             return op + ('[entry=current-value]' if ev.get('co') else '')
         return op + ('<shorter' if n < nfit else '>longer')
+    if op == 'update_same':
+        return 'update_model[same-array-again]'
+    if op == 'set_boundary' and ev.get('p') in fx.PARAMS and min(ev.get('x', [0])) <= fx.ZERO:
+        return 'set_boundary[non-positive]'
     if op == 'set_mode' and ev.get('p') in fx.PARAMS:
         if ev.get('m') not in MODES:
             return 'set_mode[no-mode]'
@@ -88,11 +121,18 @@ def fitted_kind(on):
     return 'model+observation' if obs else 'model-only'
 
 
-def replay_behaviour(ctx, hist, source, store=True):
-    """Binding C: step the real object through one spec behaviour; stop at the first divergence."""
+def replay_behaviour(ctx, hist, source, store=True, n=0):
+    """Binding C: step the real object through one spec behaviour; stop at the first divergence.
+    n: number of the behaviour; it decides in which sequence type a vector / pair is handed over where the
+    event does not say (the specification ignores the type): mostly float64 ndarrays for vectors."""
     real = fx.build()
     prev = dict(fit=[])
+    hist = [dict(h) for h in hist]
     for k, ev in enumerate(hist):
+        if 'c' not in ev and ev['op'] == 'update_model':
+            ev['c'] = ('array', 'list', 'array', 'tuple')[(n + k) % 4]
+        if 'c' not in ev and ev['op'] in ('set_boundary', 'set_factor_boundary'):
+            ev['c'] = ('tuple', 'array', 'list')[(n + k) % 3]
         exp = ev['post']
         psp = [f['psp'] for f in prev['fit']]
         if ev['op'] == 'preset':       # macro step: enable_fit / disable_fit for every parameter
@@ -126,9 +166,11 @@ def clause_for(ev, bad):
         if ev['post']['err']:
             return 'unknown_is_error'
         return {'compile_params': 'compile_history_independent', 'update_model': 'update_touches_only_fitted',
+                'update_same': 'update_touches_only_fitted',
                 'write_back': 'write_back_round_trip'}.get(op, 'setters_change_settings_only')
     if bad == 'values':
-        return {'update_model': 'update_touches_only_fitted', 'write_back': 'write_back_round_trip'}.get(op, 'values')
+        return {'update_model': 'update_touches_only_fitted', 'update_same': 'update_touches_only_fitted',
+                'write_back': 'write_back_round_trip'}.get(op, 'values')
     return bad
 
 
@@ -153,10 +195,61 @@ def coincident(real, x):
         return False
 
 
+class Shadow:
+    """What the calls made so far imply for the settings (kept by the generator, never read from the implementation):
+    it decides which calls are inside the domain of the specification -- compile_params is defined unless a fitted
+    parameter with a log-space prior has a zero / negative boundary (Optimizer.tla: CompileDefined), update_same when
+    the numbers of the last vector still mean the same (SameDefined)."""
+
+    def __init__(self):
+        self.s = {p: dict(fit=v[0], mode=v[1], nonpos=False, up=None) for p, v in fx.INIT_SETTING.items()}
+        self.compiled = []       # prior spaces of the fitted parameters at the last compile
+        self.arg = None          # spaces in which the entries of the last vector were handed over
+
+    def space(self, p):
+        return self.s[p]['up'] or self.s[p]['mode']
+
+    def offending(self):
+        return [p for p in fx.PARAMS if self.s[p]['fit'] and self.s[p]['nonpos'] and self.space(p) == 'log']
+
+    def same_defined(self):
+        return bool(self.arg) and self.arg == self.compiled       # (not for the empty vector: nothing to write)
+
+    def apply(self, ev):
+        op, p = ev['op'], ev.get('p')
+        if op == 'compile_params':
+            self.compiled = [self.space(q) for q in fx.PARAMS if self.s[q]['fit']]
+        elif op == 'update_model':
+            self.arg = [self.compiled[i] if i < len(self.compiled) else 'linear' for i in range(len(ev['x']))]
+        elif p in self.s:
+            if op in ('enable_fit', 'disable_fit'):
+                self.s[p]['fit'] = op == 'enable_fit'
+            elif op == 'set_mode' and ev.get('m') in MODES:
+                self.s[p]['mode'] = ev['m']
+            elif op == 'set_boundary':
+                self.s[p]['nonpos'] = min(ev['x']) <= fx.ZERO
+            elif op == 'set_factor_boundary':
+                self.s[p]['nonpos'] = False
+            elif op == 'set_prior':
+                self.s[p]['up'] = 'log' if ev['pr']['kind'].startswith('Log') else 'linear'
+
+
+def random_bounds(rng):
+    """A pair of boundary exponents in either order; three in ten have a zero / negative edge (codes Zero, Neg(e))."""
+    x = [rng.randint(-9, 9), rng.randint(-9, 9)]
+    if rng.random() < 0.3:
+        x[rng.randint(0, 1)] = rng.choice([fx.ZERO, fx.ZERO, fx.NEG - rng.randint(-3, 3)])
+        if rng.random() < 0.2:
+            x = [fx.NEG - rng.randint(-3, 3), fx.ZERO]
+            rng.shuffle(x)
+    return x
+
+
 def random_trace(rng, tid, length):
     """Drive a fresh real optimizer with a random call sequence; log one event per call."""
     real = fx.build()
     events = [dict(tid=tid, step=-1, op='init')]
+    shadow = Shadow()
     nfit = 0
     # flavour of the trace: one in three starts by making a random subset the fitted set (often only the
     # observation's parameter, or nothing) and half of those never call set_prior
@@ -186,9 +279,9 @@ def random_trace(rng, tid, length):
                 sorted(rng.sample(range(1, len(m) + 1), rng.randint(1, len(m))))
             ev = dict(op='set_mode', p=p, m=m, cs=cs)
         elif r < 0.36:
-            ev = dict(op='set_boundary', p=p, x=[rng.randint(-9, 9), rng.randint(-9, 9)], c=rng.choice(['tuple', 'list']))
+            ev = dict(op='set_boundary', p=p, x=random_bounds(rng), c=rng.choice(['tuple', 'list', 'array']))
         elif r < 0.42:
-            ev = dict(op='set_factor_boundary', p=p, x=[rng.randint(-3, 3), rng.randint(-3, 3)], c=rng.choice(['tuple', 'list']))
+            ev = dict(op='set_factor_boundary', p=p, x=[rng.randint(-3, 3), rng.randint(-3, 3)], c=rng.choice(['tuple', 'list', 'array']))
         elif r < 0.52:
             ev = dict(op='set_prior', p=p, pr=random_prior(rng))
         elif r < 0.57:
@@ -209,9 +302,12 @@ def random_trace(rng, tid, length):
             if n == nfit:
                 x = [1 if coincident(real, [1] * i + [1]) and not coincident(real, [1] * i) and rng.random() < 0.7 else k
                      for i, k in enumerate(x)]
-            ev = dict(op='update_model', x=x, nfit=nfit, c=rng.choice(['list', 'tuple', 'array']))
+            ev = dict(op='update_model', x=x, nfit=nfit, c=rng.choice(['list', 'tuple', 'array', 'array']))
             if n == nfit:
                 ev['co'] = coincident(real, x)
+            if shadow.same_defined() and rng.random() < 0.3:
+                # the array object of the previous update_model is written again (a second sweep over a sampler's trace)
+                ev = dict(op='update_same', nfit=nfit)
         elif r < 0.93:
             ev = dict(op='write_back')
         else:
@@ -227,6 +323,15 @@ def random_trace(rng, tid, length):
                 ev['x'] = [0, 1]
             if op == 'set_prior':
                 ev['pr'] = dict(kind='Uniform', a=0, b=1)
+        bad = shadow.offending()
+        if ev['op'] == 'compile_params' and bad:
+            # outside the domain (log10 of a zero / negative boundary): the caller changes the settings first -- the mode
+            # after the boundaries, as an input file does, or a prior / boundaries that fit
+            q = rng.choice(bad)
+            ev = dict(op='set_prior', p=q, pr=dict(kind='Uniform', a=-2, b=2)) if shadow.s[q]['up'] == 'log' else \
+                dict(op='set_mode', p=q, m='linear', cs=[]) if rng.random() < 0.7 else \
+                dict(op='set_boundary', p=q, x=[rng.randint(-9, 9), rng.randint(-9, 9)], c='tuple')
+        shadow.apply(ev)
         raised = real.apply(ev)
         post = real.project(raised)
         nfit = len(real.opt.fitting_parameters)
@@ -265,11 +370,16 @@ def run_traces(ctx, ntraces, length):
     ctx.add_sample(dict(trace_event=events[min(5, len(events) - 1)]))
     kinds = {}
     for e in events:
-        if e['op'] in ('update_model', 'set_mode'):
+        if e['op'] in ('update_model', 'update_same', 'set_mode', 'set_boundary'):
             kd = call_kind(e)
             kinds[kd] = kinds.get(kd, 0) + 1
+    for tid in range(ntraces):       # compiles / updates reached with a parameter's mode set after its boundaries
+        hist = [e for e in per_tid[tid] if e['step'] >= 0]
+        n = sum(1 for k, e in enumerate(hist) if e['op'] in FULL and boundary_then_mode(hist[:k]))
+        kinds['boundary-then-mode'] = kinds.get('boundary-then-mode', 0) + n
     need = ('update_model', 'update_model<shorter', 'update_model>longer', 'update_model[entry=current-value]',
-            'set_mode', 'set_mode[mixed-case]', 'set_mode[no-mode]')
+            'set_mode', 'set_mode[mixed-case]', 'set_mode[no-mode]', 'set_boundary[non-positive]',
+            'update_model[same-array-again]', 'boundary-then-mode')
     if any(kinds.get(kd, 0) < max(2, ntraces // 50) for kd in need):
         raise Machinery('recorded traces do not cover the classes of update_model / set_mode arguments: %r' % kinds)
     ctx.note('binding B: %d recorded traces, %d calls, %d rejected; %r' % (ntraces, len(events) - ntraces, len(bad), kinds))
@@ -327,11 +437,20 @@ def run(ctx):
     ctx.bounds = dict(
         tier=ctx.tier,
         fixture='TransmissionModel(planet_radius, T, H2O[log]) + ArraySpectrum subclass (offset); derived logg, mu',
-        exhaustive=('2 model + 1 observation parameters, 2 bound pairs (one reversed), 1 factor pair, 3 priors, '
-                    '2 update exponents, histories of <= 4 calls') if q else
-                   ('3 model + 1 observation parameters, 3 bound pairs, 2 factor pairs, 4 priors, 2 update exponents, '
-                    'histories of <= 5 calls'),
-        behaviours='all histories of 3 calls over a reduced alphabet + 2175 preset histories (all 16 fitted subsets; modes in three spellings; last call also a vector one shorter / one longer than the fitted set) + %d simulated behaviours of 14 calls over the full alphabet' % (300 if q else 3000),
+        exhaustive=('2 model + 1 observation parameters, 2 bound pairs (one reversed with a negative edge), 1 factor pair, '
+                    '3 priors, 2 update exponents, histories of <= 4 calls') if q else
+                   ('3 model + 1 observation parameters, 3 bound pairs (one reversed, one with a zero edge), 2 factor pairs, '
+                    '4 priors, 2 update exponents, histories of <= 5 calls'),
+        behaviours='all histories of 3 calls over a reduced alphabet + 2403 preset histories (all 16 fitted subsets; modes in '
+                   'three spellings; boundaries also with a zero edge; last call also a vector one shorter / one longer than '
+                   'the fitted set; an accepted update_model is followed by a second write of the same array object) + 688 '
+                   'order histories (two setting calls of different kinds on one fitted parameter in either order, then '
+                   'compile) + %d simulated behaviours of 14 calls over the full alphabet' % (300 if q else 3000),
+        boundaries='positive in either order, with a zero edge, with a negative edge (reversed), both edges non-positive: '
+                   'legal where the prior is linear; compile_params with a log-space prior over such boundaries is outside '
+                   'the domain (never generated)',
+        arguments='boundary / factor pairs as tuple, list, float64 ndarray; vectors as list, tuple, float64 ndarray; contents '
+                  'compared exactly with a private copy after the call; the array of the last update_model re-read after every later call',
         traces='%d recorded call sequences of %d calls' % ((150, 25) if q else (1500, 30)),
         rejected_calls='unknown names; update_model with a vector of every wrong non-zero length up to one more than the '
                        'fitted set (exhaustive: all values of K; presets: one shorter / one longer for every fitted subset; '
@@ -342,23 +461,10 @@ def run(ctx):
         'all linear quantities are powers of ten (exponents in the spec); float log10/10** are exact to 1e-12 on them',
         'prior parameters are read through the public params() text and boundaries(); order of a boundary pair is not compared',
         'TLC + CommunityModules Json/IOUtils; the harness projection harness/fx_optimizer.py',
-        'before the first compile_params() nothing is derived (Optimizer has no derived_parameters attribute yet)']
-    # ---- design level (TLC runs in background threads while the behaviours are replayed; joined before finishing)
-    from concurrent.futures import ThreadPoolExecutor
-    pool = ThreadPoolExecutor(max_workers=3)
-    design = [pool.submit(ctx.check_spec, 'coverage', 'MC_Optimizer', 'MC_Optimizer_cov.cfg', need_actions=NEED),   # vacuity: every action taken
-              pool.submit(ctx.check_spec, 'exhaustive', 'MC_Optimizer', 'MC_Optimizer_%s.cfg' % ctx.tier, workers=8)]
-    ctx.exhaustive = True
-    # e: set_mode stores the spelling it was given (compile reads "LOG" as not "log"); f: update_model notices the
-    # wrong length only when the shorter of vector / fitted set runs out, after the leading setters were called
-    for cfg, inv in (('a', 'HistoryIndependent'), ('a2', 'DefaultsFollowSettings'), ('b', 'SpacesAgree'),
-                     ('b2', 'RoundTrip'), ('c', 'KnownIsAccepted'), ('e', 'HistoryIndependent'),
-                     ('f', 'ErrorsChangeNothing')):
-        design.append(pool.submit(ctx.expect_refuted, 'as-built-%s' % cfg, 'MC_Optimizer', 'MC_Optimizer_asbuilt_%s.cfg' % cfg, inv, workers=4))
-    # priors of the observation's parameters reaching the table only when the model pass left something in it
-    design.append(pool.submit(ctx.expect_refuted, 'obs-priors-lost', 'MC_Optimizer', 'MC_Optimizer_asbuilt_d.cfg', 'ViewsReadable', workers=4))
-    ctx._design_futures = design
-    # ---- binding C: exhaustive short histories
+        'before the first compile_params() nothing is derived (Optimizer has no derived_parameters attribute yet)',
+        'compile_params over a fitted parameter whose prior is in log space while a boundary is zero / negative is outside '
+        'the domain (log10 of the boundary does not exist); factors of set_factor_boundary are positive']
+    # ---- binding C: exhaustive short histories (exported first, alone: the export is on the critical path)
     res = run_tlc('MC_Optimizer', 'EX_Optimizer_%s.cfg' % ctx.tier, workers=1)
     ctx.add_tlc('export-histories', res, counts=False)
     if res.violated:
@@ -366,26 +472,56 @@ def run(ctx):
     behs = res.tagged('BEH')
     if len(behs) < 1000:
         raise Machinery('only %d histories exported' % len(behs))
-    for b in behs:
-        replay_behaviour(ctx, b['h'], 'export')
+    # ---- design level (TLC runs in background threads while the behaviours are replayed; joined before finishing)
+    from concurrent.futures import ThreadPoolExecutor
+    pool = ThreadPoolExecutor(max_workers=3)
+    nsim = 300 if q else 3000
+    # the other exports of binding C are prepared meanwhile
+    later = [pool.submit(run_tlc, 'MC_Optimizer', 'EX_Optimizer_preset.cfg', workers=1),
+             pool.submit(run_tlc, 'MC_Optimizer', 'EX_Optimizer_order.cfg', workers=1),
+             pool.submit(run_tlc, 'MC_Optimizer', 'SIM_Optimizer.cfg', simulate='num=%d' % nsim, depth=16, workers=1,
+                         seed=ctx.seed + 1)]
+    design = [pool.submit(ctx.check_spec, 'coverage', 'MC_Optimizer', 'MC_Optimizer_cov.cfg', need_actions=NEED),   # vacuity: every action taken
+              pool.submit(ctx.check_spec, 'exhaustive', 'MC_Optimizer', 'MC_Optimizer_%s.cfg' % ctx.tier, workers=8)]
+    ctx.exhaustive = True
+    # e: set_mode stores the spelling it was given (compile reads "LOG" as not "log"); f: update_model notices the
+    # wrong length only when the shorter of vector / fitted set runs out, after the leading setters were called;
+    # g: set_boundary drops a zero / negative edge while the parameter is in log mode (the order of set_boundary and
+    # set_mode decides the set-up); h: update_model writes the prior transform into the caller's array
+    for cfg, inv in (('a', 'HistoryIndependent'), ('a2', 'DefaultsFollowSettings'), ('b', 'SpacesAgree'),
+                     ('b2', 'RoundTrip'), ('c', 'KnownIsAccepted'), ('e', 'HistoryIndependent'),
+                     ('f', 'ErrorsChangeNothing'), ('g', 'HistoryIndependent'), ('h', 'ArgumentKept')):
+        design.append(pool.submit(ctx.expect_refuted, 'as-built-%s' % cfg, 'MC_Optimizer', 'MC_Optimizer_asbuilt_%s.cfg' % cfg, inv, workers=4))
+    # priors of the observation's parameters reaching the table only when the model pass left something in it
+    design.append(pool.submit(ctx.expect_refuted, 'obs-priors-lost', 'MC_Optimizer', 'MC_Optimizer_asbuilt_d.cfg', 'ViewsReadable', workers=4))
+    ctx._design_futures = design
+    nsame = 0
+    for n, b in enumerate(behs):
+        replay_behaviour(ctx, b['h'], 'export', n=n)
+        nsame += any(h['op'] == 'update_same' for h in b['h'])
     nb = len(behs)
     # ---- binding C: preset histories (every fitted subset, incl. observation parameters only / none)
-    res = run_tlc('MC_Optimizer', 'EX_Optimizer_preset.cfg', workers=1)
+    res = later[0].result()
     ctx.add_tlc('export-preset-histories', res, counts=False)
     if res.violated:
         raise Machinery('preset export config violated %s' % res.violated)
     pres = res.tagged('BEH')
-    if not q:
-        pass
     kinds = {}
-    for b in pres:
+    for n, b in enumerate(pres):
         h = b['h']
-        replay_behaviour(ctx, h, 'preset')
-        key = (fitted_kind(h[0]['on']), any(x['op'] == 'set_prior' for x in h), h[-1]['op'])
+        replay_behaviour(ctx, h, 'preset', n=n)
+        last = h[3]         # (an accepted update_model is followed by update_model with the same array)
+        key = (fitted_kind(h[0]['on']), any(x['op'] == 'set_prior' for x in h), last['op'])
         kinds[key] = kinds.get(key, 0) + 1
-        key = (fitted_kind(h[0]['on']), call_kind(h[-1]), call_kind(h[1]))
+        key = (fitted_kind(h[0]['on']), call_kind(last), call_kind(h[1]))
         kinds[key] = kinds.get(key, 0) + 1
-        kinds[call_kind(h[-1])] = kinds.get(call_kind(h[-1]), 0) + 1
+        kinds[call_kind(last)] = kinds.get(call_kind(last), 0) + 1
+        if len(h) == 5:
+            # the same array written twice where a log-space prior reads it (the transform is not the identity there)
+            key = ('same', fitted_kind(h[0]['on']), any(f['psp'] == 'log' for f in h[4]['post']['fit']))
+            kinds[key] = kinds.get(key, 0) + 1
+        elif call_kind(last) in ('update_model', 'update_model[entry=current-value]'):
+            raise Machinery('a preset history ends in an accepted update_model without the second write of the same array')
     for fk in ('none', 'observation-only', 'model-only', 'model+observation'):
         for last in ('update_model', 'write_back', 'compile_params'):
             if not kinds.get((fk, False, last)) or not kinds.get((fk, True, last)):
@@ -398,13 +534,39 @@ def run(ctx):
             for second in ('compile_params', 'set_mode[mixed-case]'):
                 if not kinds.get((fk, last, second)):
                     raise Machinery('preset histories do not cover fitted=%s x %s x %s' % (fk, second, last))
+        if fk != 'none' and not kinds.get(('same', fk, True)):
+            raise Machinery('preset histories do not write the same array twice through a log-space prior for fitted=%s' % fk)
+        if not kinds.get((fk, 'compile_params', 'set_boundary[non-positive]')):
+            raise Machinery('preset histories do not set a zero / negative boundary for fitted=%s' % fk)
     if kinds.get('update_model[entry=current-value]', 0) < 8:
         raise Machinery('preset histories do not hand a log prior an entry equal to the current value of its parameter')
     nb += len(pres)
-    ctx.note('binding C: %d preset histories (fitted subset x setter/set_prior/compile x compile x update/write-back/compile)' % len(pres))
+    ctx.note('binding C: %d preset histories (fitted subset x setter/set_prior/compile x compile x update/write-back/compile; '
+             'an accepted update is followed by a second write of the same array)' % len(pres))
+    # ---- binding C: order histories (two setting calls of different kinds on one fitted parameter, either order)
+    res = later[1].result()
+    ctx.add_tlc('export-order-histories', res, counts=False)
+    if res.violated:
+        raise Machinery('order export config violated %s' % res.violated)
+    orders = res.tagged('BEH')
+    okinds = {}
+    for n, b in enumerate(orders):
+        h = b['h']
+        replay_behaviour(ctx, h, 'order', n=n)
+        key = (call_kind(h[1]), call_kind(h[2]), h[1]['p'] in OBS_PARAMS)
+        okinds[key] = okinds.get(key, 0) + 1
+    for obs in (False, True):
+        for a, b in (('set_boundary[non-positive]', 'set_mode'), ('set_mode', 'set_boundary[non-positive]'),
+                     ('set_boundary', 'set_mode'), ('set_mode', 'set_boundary'),
+                     ('set_factor_boundary', 'set_mode'), ('set_mode', 'set_factor_boundary'),
+                     ('set_factor_boundary', 'set_boundary[non-positive]'), ('set_boundary[non-positive]', 'set_factor_boundary')):
+            if not okinds.get((a, b, obs)):
+                raise Machinery('order histories do not cover %s then %s on %s parameter' % (a, b, 'an observation' if obs else 'a model'))
+    nb += len(orders)
+    ctx.note('binding C: %d order histories (fitted subset x two setting calls of different kinds on one fitted parameter, '
+             'either order x compile)' % len(orders))
     # ---- binding C: simulation
-    nsim = 300 if q else 3000
-    res = run_tlc('MC_Optimizer', 'SIM_Optimizer.cfg', simulate='num=%d' % nsim, depth=16, workers=1, seed=ctx.seed + 1)
+    res = later[2].result()
     ctx.add_tlc('simulate', res, counts=False)
     if res.violated:
         raise Machinery('simulation violated %s\n%s' % (res.violated, res.error_trace))
@@ -414,18 +576,19 @@ def run(ctx):
     ops = set()
     ncompile2 = 0
     nrefused = {}
-    for b in sims:
-        replay_behaviour(ctx, b['h'], 'simulate')
+    for n, b in enumerate(sims):
+        replay_behaviour(ctx, b['h'], 'simulate', n=n)
         ops |= {h['op'] for h in b['h']}
         ncompile2 += sum(1 for h in b['h'] if h['op'] == 'compile_params') >= 2
         kinds = [call_kind(h) for h in b['h']]
-        for kd in ('update_model<shorter', 'update_model>longer', 'set_mode[no-mode]', 'set_mode[mixed-case]'):
+        for kd in ('update_model<shorter', 'update_model>longer', 'set_mode[no-mode]', 'set_mode[mixed-case]',
+                   'set_boundary[non-positive]', 'update_model[same-array-again]'):
             # .. followed by an accepted update_model / write-back / compile on the same object
             if kd in kinds and any(h['op'] in FULL and not h['post']['err'] for h in b['h'][kinds.index(kd) + 1:]):
                 nrefused[kd] = nrefused.get(kd, 0) + 1
-    if len(ops) < 12 or ncompile2 < nsim // 4:
+    if len(ops) < 13 or ncompile2 < nsim // 4:
         raise Machinery('simulation does not cover the calls: %r, %d behaviours with two compiles' % (sorted(ops), ncompile2))
-    if len(nrefused) < 4 or min(nrefused.values()) < max(3, nsim // 60):
+    if len(nrefused) < 6 or min(nrefused.values()) < max(3, nsim // 60):
         raise Machinery('simulation does not cover refused vectors / modes / upper-case modes followed by an accepted '
                         'compile, update or write-back: %r' % nrefused)
     ctx.traces += nb + len(sims)
